@@ -29,10 +29,82 @@ func die(format string, a ...any) {
 	os.Exit(1)
 }
 
-// render a selector chain / identifier / index expression as source-like text
+// roleOf: the name the tables below use for a function-local variable, decided by WHAT the variable is and
+// not by how the source calls it: "sm" the receiver of a *ShardManager method, "ls" a *loadedShard (declared
+// with that type, or bound to an entry of the shard store, a loadedShard literal or the result of loadShard),
+// "f" a parameter of function type, "timer" the result of time.NewTimer. Everything else keeps its name.
+var roleOf = map[*ast.Object]string{}
+
+func isLoadedShardType(t ast.Expr) bool {
+	if st, ok := t.(*ast.StarExpr); ok {
+		t = st.X
+	}
+	id, ok := t.(*ast.Ident)
+	return ok && id.Name == "loadedShard"
+}
+
+func assignRoles(fd *ast.FuncDecl) {
+	if fd.Recv != nil && len(fd.Recv.List) == 1 && len(fd.Recv.List[0].Names) == 1 {
+		t := fd.Recv.List[0].Type
+		if st, ok := t.(*ast.StarExpr); ok {
+			t = st.X
+		}
+		if id, ok := t.(*ast.Ident); ok && id.Name == "ShardManager" {
+			roleOf[fd.Recv.List[0].Names[0].Obj] = "sm"
+		}
+	}
+	for _, f := range fd.Type.Params.List {
+		for _, n := range f.Names {
+			if _, ok := f.Type.(*ast.FuncType); ok {
+				roleOf[n.Obj] = "f"
+			}
+			if isLoadedShardType(f.Type) {
+				roleOf[n.Obj] = "ls"
+			}
+		}
+	}
+	if fd.Body == nil {
+		return
+	}
+	ast.Inspect(fd.Body, func(n ast.Node) bool {
+		as, ok := n.(*ast.AssignStmt)
+		if !ok || as.Tok != token.DEFINE || len(as.Rhs) != 1 || len(as.Lhs) < 1 {
+			return true
+		}
+		id, ok := as.Lhs[0].(*ast.Ident)
+		if !ok || id.Obj == nil {
+			return true
+		}
+		switch r := as.Rhs[0].(type) {
+		case *ast.IndexExpr:
+			if sel, ok := r.X.(*ast.SelectorExpr); ok && sel.Sel.Name == "shardStore" {
+				roleOf[id.Obj] = "ls"
+			}
+		case *ast.UnaryExpr:
+			if cl, ok := r.X.(*ast.CompositeLit); ok && r.Op == token.AND && isLoadedShardType(cl.Type) {
+				roleOf[id.Obj] = "ls"
+			}
+		case *ast.CallExpr:
+			if sel, ok := r.Fun.(*ast.SelectorExpr); ok {
+				if sel.Sel.Name == "loadShard" {
+					roleOf[id.Obj] = "ls"
+				}
+				if pkg, ok := sel.X.(*ast.Ident); ok && pkg.Name == "time" && pkg.Obj == nil && sel.Sel.Name == "NewTimer" {
+					roleOf[id.Obj] = "timer"
+				}
+			}
+		}
+		return true
+	})
+}
+
+// render a selector chain / identifier / index expression as source-like text (locals by role, see roleOf)
 func render(e ast.Expr) string {
 	switch x := e.(type) {
 	case *ast.Ident:
+		if r, ok := roleOf[x.Obj]; ok && x.Obj != nil {
+			return r
+		}
 		return x.Name
 	case *ast.SelectorExpr:
 		return render(x.X) + "." + x.Sel.Name
@@ -130,7 +202,7 @@ func (w *walker) expr(e ast.Expr) {
 				w.emit("shard" + x.Op.String() + "nil")
 				return false
 			}
-			if l == "sm.shardStore[shardDir]" && r == "ls" {
+			if ix, ok := x.X.(*ast.IndexExpr); ok && render(ix.X) == "sm.shardStore" && r == "ls" {
 				w.emit("mapget" + x.Op.String() + "ls")
 				return false
 			}
@@ -286,7 +358,7 @@ func fieldUsers(files map[string]*ast.File) []string {
 					case "shardStore", "shardLock":
 						set[fd.Name.Name] = true
 					case "doneCh", "mu", "shard":
-						if id, ok := sel.X.(*ast.Ident); ok && id.Name == "ls" {
+						if id, ok := sel.X.(*ast.Ident); ok && (id.Name == "ls" || roleOf[id.Obj] == "ls") {
 							set[fd.Name.Name] = true
 						}
 					}
@@ -372,6 +444,14 @@ func main() {
 		f, err := parser.ParseFile(fset, filepath.Join(dir, n), nil, 0)
 		if err != nil {
 			die("%v", err)
+		}
+		// behaviour-preserving normal form (astnorm_gen.go): log calls dropped, orientation of if/else,
+		// x++ / x += 1, order of pure conjunctions
+		NormalizeFile(fset, f, AllNorm)
+		for _, d := range f.Decls {
+			if fd, ok := d.(*ast.FuncDecl); ok {
+				assignRoles(fd)
+			}
 		}
 		files[n] = f
 	}
